@@ -12,6 +12,7 @@ structure Lawful {R : Type} (M : RuleMod R) : Prop where
   res_norm : ∀ r, M.res (M.norm r) = M.res r
   pub_norm : M.pubValid = true → ∀ r, M.norm r = r
   sim_refl : ∀ r, M.sim r r = true
+  sim_res : ∀ a b, M.sim a b = true → M.res a = M.res b
   equals_sim : ∀ o r, M.equals o r = true → M.norm o = o → M.sim o (M.norm r) = true
   equals_buildable : ∀ o r, M.equals o r = true → M.buildable o = M.buildable r
 
@@ -63,6 +64,11 @@ theorem flow_lawful (tm : Int) : Lawful (flowMod tm) where
   res_norm r := by simp only [flowMod, flowNorm]; split_ifs <;> rfl
   pub_norm h := by simp [flowMod] at h
   sim_refl r := by simp [flowMod, flowSim, f64Equals_refl]
+  sim_res a b h := by
+    simp only [flowMod, flowSim, Bool.and_eq_true, decide_eq_true_eq] at h
+    have := congrArg FlowRule.res h.1
+    simp only [flowCanon] at this
+    exact this
   equals_sim o r h hn := by
     have hs := (flowIsEqualsTo_iff o r).mp h
     have hc : flowCanon o = flowCanon r := by
@@ -93,6 +99,7 @@ theorem iso_lawful : Lawful isoMod where
   res_norm _ := rfl
   pub_norm _ _ := rfl
   sim_refl r := by simp [isoMod]
+  sim_res a b h := by simp only [isoMod, decide_eq_true_eq] at h; rw [h]
   equals_sim _ _ h := by simp [isoMod] at h
   equals_buildable _ _ h := by simp [isoMod] at h
 
@@ -108,6 +115,11 @@ theorem hot_lawful : Lawful hotMod where
   res_norm r := by simp only [hotMod, hotNorm]; split_ifs <;> rfl
   pub_norm h := by simp [hotMod] at h
   sim_refl r := by simp [hotMod]
+  sim_res a b h := by
+    simp only [hotMod, decide_eq_true_eq] at h
+    have := congrArg HotRule.res h
+    simp only [hotCanon] at this
+    exact this
   equals_sim o r h hn := by
     have hc := hotEquals_canon o r h
     suffices hr : hotNorm r = r by simp only [hotMod]; rw [hr]; simpa using hc
@@ -133,6 +145,11 @@ theorem cb_lawful : Lawful cbMod where
   res_norm _ := rfl
   pub_norm _ _ := rfl
   sim_refl r := by simp [cbMod, cbSim, f64Equals_refl]
+  sim_res a b h := by
+    simp only [cbMod, cbSim, Bool.and_eq_true, decide_eq_true_eq] at h
+    have := congrArg CbRule.res h.1
+    simp only [cbCanon] at this
+    exact this
   equals_sim o r h _ := by
     cases o; cases r
     simp only [cbMod, cbIsEqualsTo, Bool.and_eq_true, beq_iff_eq] at h
@@ -931,6 +948,61 @@ theorem loadRes_withGen (custom : R → Bool) (g : GenMode) (s : MState R) (res 
     rw [map_normIn_withGen custom g res rules h, buildList_withGen custom g res rules h, validList_withGen,
         buildReuse_withGen custom g res _ (validList_noCustom custom rules h)]
     rfl
+
+/-! ### `GetRules` grouped by resource -/
+
+theorem nodup_eraseDups_str (l : List String) : l.eraseDups.Nodup := by
+  induction hn : l.length using Nat.strong_induction_on generalizing l with
+  | _ n ih =>
+    cases l with
+    | nil => simp
+    | cons a as =>
+      rw [List.eraseDups_cons]
+      refine List.nodup_cons.mpr ⟨?_, ?_⟩
+      · simp [List.mem_eraseDups]
+      · exact ih _ (by subst hn; simp only [List.length_cons]; exact Nat.lt_succ_of_le (List.length_filter_le _ _)) _ rfl
+
+/-- picking the elements of key `k` out of a concatenation of per-key lists gives that key's list -/
+theorem filter_flatMap_key {α : Type} (key : α → String) (f : String → List α) (k : String) :
+    ∀ ks : List String, ks.Nodup → (∀ k' ∈ ks, ∀ x ∈ f k', key x = k') →
+      (ks.flatMap f).filter (fun x => key x == k) = if k ∈ ks then f k else [] := by
+  intro ks
+  induction ks with
+  | nil => intro _ _; rfl
+  | cons a r ih =>
+    intro hnd hkey
+    obtain ⟨ha, hr⟩ := List.nodup_cons.mp hnd
+    have ih' := ih hr (fun k' hk' => hkey k' (List.mem_cons_of_mem _ hk'))
+    rw [List.flatMap_cons, List.filter_append, ih']
+    by_cases hak : a = k
+    · subst hak
+      have e : (f a).filter (fun x => key x == a) = f a := by
+        rw [List.filter_eq_self]; intro x hx; simp [hkey a List.mem_cons_self x hx]
+      simp [e, ha]
+    · have e : (f a).filter (fun x => key x == k) = [] := by
+        rw [List.filter_eq_nil_iff]; intro x hx
+        have := hkey a List.mem_cons_self x hx
+        simp [this, hak]
+      have hka : ¬ k = a := fun h => hak h.symm
+      simp [e, hka]
+
+theorem res_of_mem_buildList (hM : Lawful M) {k : String} {rules : List (Option R)} {r : R}
+    (h : r ∈ buildList M k (proj M k rules)) : M.res r = k := by
+  rw [mem_buildList] at h
+  obtain ⟨r0, hm, _, rfl⟩ := h
+  rw [hM.res_norm]
+  have := (List.mem_filter.mp hm).2
+  simpa using this
+
+theorem res_of_forall₂ (hM : Lawful M) {k : String} {a b : List R}
+    (h : List.Forall₂ (fun x y => M.sim x y = true) a b) (hb : ∀ y ∈ b, M.res y = k) : ∀ x ∈ a, M.res x = k := by
+  induction h with
+  | nil => intro x hx; simp at hx
+  | cons hxy _ ih =>
+    intro x hx
+    rcases List.mem_cons.mp hx with rfl | hx
+    · rw [hM.sim_res _ _ hxy]; exact hb _ List.mem_cons_self
+    · exact ih (fun y hy => hb y (List.mem_cons_of_mem _ hy)) x hx
 
 theorem run_snoc (ops : List (Op R)) (op : Op R) : run M (ops ++ [op]) = (step M (run M ops) op).1 := by
   simp [run, List.foldl_append]
